@@ -187,7 +187,11 @@ def check(ctx, rep, rule):
                        'never wrap (R12.4)%s' % ((': ' + whyf) if not okf else ''), loc)
             elif n in ('alloc::alloc::alloc', 'alloc::alloc::dealloc', 'core::ptr::drop_in_place'):
                 ok = fpath == 'object::allocate' or fpath.endswith('::destroy')
-                rep.ob(ok, rule, fpath, construct, 'class alloc/dealloc: only in object::allocate and the destroy functions (ownership rules: C03/C04)', loc)
+                if not ok and fpath == 'object::Object::free':
+                    # the release code written into the dispatcher itself (or spliced in from a generic helper): every release must
+                    # be of the box type the tag test of that path established
+                    ok = free_releases_match_tags(ctx)
+                rep.ob(ok, rule, fpath, construct, 'class alloc/dealloc: only in object::allocate, the destroy functions and (under the matching tag test) Object::free (ownership rules: C03/C04)', loc)
             elif n.endswith('::write') and 'from_' in fpath and fpath.startswith('object::'):
                 rep.good(rule, fpath, construct, 'class constructor-init: initialises the freshly allocated box', loc)
             elif fpath.startswith('gc::GC::'):
@@ -266,3 +270,37 @@ def frame_arith_ok(ctx):
         bad = [o for o in tmp.obs if not o['ok'] and o['fn'] != 'vm::VM::pop']
         ctx.__dict__[key] = (not bad, bad[0]['construct'] if bad else '')
     return ctx.__dict__[key]
+
+
+def released_types(ctx):
+    """{type name: [box types released on paths where the tag is that type]} for Object::free, from destroy calls or from
+    dealloc(Layout::new::<T>()) written / spliced into it"""
+    from mirlib import _split_generic_args
+    F = ctx.facts()
+    fn = F.fn('object::Object::free')
+    out = {}
+    for p in AbsInt(F, fn, max_paths=4000).run():
+        tys = sorted({ty for o_, ty in tag_facts(p)})
+        rel = []
+        for c in p.calls:
+            if c[1].endswith('::destroy') and c[1].startswith('object::'):
+                rel.append(c[1].split('::')[-2])
+            elif c[1].endswith('alloc::dealloc') and len(c[2]) == 2:
+                lay = c[2][1]
+                lay = p.env.get(lay[1], lay) if lay[0] == 'ref' else lay
+                if lay[0] == 'call' and lay[1].endswith('Layout::new'):
+                    for b2, t2 in fn.calls():
+                        if b2 == lay[3]:
+                            ga = _split_generic_args(t2['callee'].get('generic_args'))
+                            rel.append((ga[0] if ga else '?').split('::')[-1])
+                else:
+                    rel.append('?')
+        if rel:
+            for ty in (tys or ['<no tag test>']):
+                out.setdefault(ty, []).extend(rel)
+    return out
+
+
+def free_releases_match_tags(ctx):
+    rt = released_types(ctx)
+    return bool(rt) and all(ty != '<no tag test>' and set(v) == {ty} for ty, v in rt.items())
